@@ -54,21 +54,34 @@ def lib_rows(k: int):
 def lib_park():
     init.fill([spec.get_special_grid(grid_id="park")])
     return lib_rows(1)
+
+@move
+def lib_layer(k: int):
+    lib_gate()
+    return lib_rows(k)
 '''
 KERNELS = {
     "K1": "def K1():\n    lib_gate()\n    return lib_rows(0)\n",
     "K2": "def K2():\n    x = lib_park()\n    lib_gate()\n    return x\n",
+    "K4": "def K4():\n    return lib_layer(1)\n",
     "K3": "def K3():\n    from_way = spec.get_static_trap(zone_id=\"traps\")\n    move_by_waypoints(ilist.IList([from_way[0:2, 0:2], from_way[1:3, 0:2]]), True, True)\n    return lib_rows(2)\n",
 }
-SHARED_NAMES = ["lib_gate", "lib_rows", "lib_park", "move_by_waypoints", "move_by_waypoints_kernel", "hop"]
+SHARED_NAMES = ["lib_gate", "lib_rows", "lib_park", "lib_layer", "move_by_waypoints", "move_by_waypoints_kernel", "hop"]
+
+
+SHARED_IDS = {}      # id(shared method of the current world) -> name
 
 
 def ir_text(m):
+    """printed IR plus WHICH method objects the calls go to (a call redirected to a clone prints the same)"""
+    from kirin.dialects import func
     from kirin.print import Printer
     from rich.console import Console
     buf = io.StringIO()
     m.print(Printer(console=Console(file=buf, force_terminal=False, no_color=True, width=400)))
-    return buf.getvalue()
+    callees = [f"{st.callee.sym_name}->{SHARED_IDS.get(id(st.callee), 'NOT-THE-SHARED-METHOD')}"
+               for st in m.callable_region.walk() if isinstance(st, func.Invoke)]
+    return buf.getvalue() + "\ncallees: " + ", ".join(callees)
 
 
 def log_text(st, evs, res):
@@ -87,14 +100,16 @@ class World:
         self.ns["move_by_waypoints"] = waypoints.move_by_waypoints
         self.ns["move_by_waypoints_kernel"] = waypoints.move_by_waypoints_kernel
         self.shared = {n: self.ns[n] for n in SHARED_NAMES}
+        SHARED_IDS.clear()
+        SHARED_IDS.update({id(m): n for n, m in self.shared.items()})
         self.shared_ir = {n: ir_text(m) for n, m in self.shared.items()}
         self.compiled = {}            # kernel name -> (method, spec key)
 
     def shared_behaviour(self):
         out = {}
         for sk, S in self.specs.items():
-            for n in ("lib_gate", "lib_rows", "lib_park"):
-                args = (1,) if n == "lib_rows" else ()
+            for n in ("lib_gate", "lib_rows", "lib_park", "lib_layer"):
+                args = (1,) if n in ("lib_rows", "lib_layer") else ()
                 out[(n, sk)] = log_text(*events.run_events(self.shared[n], args, S))
         return out
 
@@ -210,10 +225,10 @@ def run(ctx):
 
 def store_model(ctx, hists):
     """replay the compile steps on Model.Store and let Coq predict which observations may change"""
-    # method ids: 0 lib_gate, 1 lib_rows, 2 lib_park, 3 move_by_waypoints, 4 K1, 5 K2, 6 K3 ; calls as in the sources
-    calls = {0: [], 1: [0], 2: [1], 3: [], 4: [0, 1], 5: [2, 0], 6: [3, 1]}
-    kid = {"K1": 4, "K2": 5, "K3": 6}
-    init = clist([f"(mkmeth {cnat(i)} None {clist([cnat(c) for c in calls[i]])})" for i in range(7)])
+    # method ids: 0 lib_gate, 1 lib_rows, 2 lib_park, 3 move_by_waypoints, 4 K1, 5 K2, 6 K3, 7 lib_layer, 8 K4 ; calls as in the sources
+    calls = {0: [], 1: [0], 2: [1], 3: [], 4: [0, 1], 5: [2, 0], 6: [3, 1], 7: [0, 1], 8: [7]}
+    kid = {"K1": 4, "K2": 5, "K3": 6, "K4": 8}
+    init = clist([f"(mkmeth {cnat(i)} None {clist([cnat(c) for c in calls[i]])})" for i in range(9)])
     rows = []
     for h in hists[:40]:
         steps = clist([f"({cnat(kid[x[1]])}, {cnat(1 if x[2] == 'A' else 2)})" for x in h if x[0] == "compile"])
@@ -221,7 +236,7 @@ def store_model(ctx, hists):
     body = COQ_IMPORT + f"Definition st0 : store := {init}.\n"
     body += ("Definition row (steps : list (nat * nat)) : string :=\n"
              "  let st := fold_left (fun s c => compile s (fst c) (snd c)) steps st0 in\n"
-             "  (show_bool (shared_unchanged 4%nat st0 st) ++ show_bool (forallb (fun c => sees_only 12%nat st (fst c) (last_spec steps (fst c))) steps))%string.\n")
+             "  (show_bool (shared_unchanged 4%nat st0 st && meth_eqb (nth 7 st0 dflt) (nth 7 st dflt)) ++ show_bool (forallb (fun c => sees_only 12%nat st (fst c) (last_spec steps (fst c))) steps))%string.\n")
     body += "Eval vm_compute in (lines (map row " + clist(rows) + "))."
     ok, vals, log = coqrun.eval_lines(ctx.bdir, "store", body)
     if not ok or len(vals) != 1:
